@@ -298,13 +298,15 @@ func (info *decodeInfo) decodeCharString(code []byte) (*Glyph, error) {
 					dx := stack[0] + stack[2] + stack[4] + stack[6] + stack[8]
 					dy := stack[1] + stack[3] + stack[5] + stack[7] + stack[9]
 					if math.Abs(dx) > math.Abs(dy) {
+						// the curve returns to the y-coordinate of the start point
 						rCurveTo(stack[6], stack[7],
 							stack[8], stack[9],
-							extra, 0)
+							extra, -dy)
 					} else {
+						// the curve returns to the x-coordinate of the start point
 						rCurveTo(stack[6], stack[7],
 							stack[8], stack[9],
-							0, extra)
+							-dx, extra)
 					}
 					// fd = 0.5
 				}
@@ -465,7 +467,12 @@ func (info *decodeInfo) decodeCharString(code []byte) (*Glyph, error) {
 				if k < 0 {
 					return nil, errStackUnderflow
 				}
-				stack[k] = float64(int64(stack[k]) * int64(stack[k+1]) >> 16)
+				prod := math.Round(stack[k]*stack[k+1]*65536) / 65536
+				if prod >= 32768 || prod < -32768 {
+					// the result is not representable as a 16.16 number
+					return nil, errors.New("cff: arithmetic overflow")
+				}
+				stack[k] = prod
 				stack = stack[:k+1]
 			case t2sqrt:
 				k := len(stack) - 1
@@ -509,7 +516,7 @@ func (info *decodeInfo) decodeCharString(code []byte) (*Glyph, error) {
 				}
 				n := int(stack[k])
 				j := int(stack[k+1])
-				if n <= 0 || n > k {
+				if n < 0 || n > k {
 					return nil, errors.New("invalid roll count")
 				}
 				roll(stack[k-n:k], j)
@@ -675,6 +682,9 @@ func getSubr(subrs cffIndex, biased int) ([]byte, error) {
 
 func roll(data []float64, j int) {
 	n := len(data)
+	if n == 0 {
+		return
+	}
 
 	j = j % n
 	if j < 0 {
